@@ -40,6 +40,15 @@ inductive Val
   | int (k : Int)      -- python int
   | float (r : Rat)    -- python float (variance fraction)
   | npint (k : Int)    -- numpy integer: neither float nor int for `isinstance`
+  /-- python float `r`, together with what the code's own float64 evaluation of
+  `_total_variance_ratio()` (`tvr`) and `_total_eigenvalues_cumulative_ratio()` (`cum`) returned
+  (rounded division / cumulative sum: *observed*, not assumed equal to the exact values).
+  `float r` is the case where both are exact (`float_is_exact_obs`). -/
+  | floatObs (r tvr : Rat) (cum : List Rat)
+  /-- the *repaired* float form (notes/fixes/C10-float-fraction-rounding.diff): as `floatObs`, the count
+  clamped to `n_components` — not what the code does today; modelled so that the correspondence keeps
+  holding, and the theorems keep applying, if the repair is applied -/
+  | floatObsClamped (r tvr : Rat) (cum : List Rat)
 deriving Repr, DecidableEq
 
 /-- `np.cumsum` -/
@@ -109,6 +118,15 @@ def setActive (s : St) : Val → Except Err St
       else .ok s                                             -- return (do nothing)
     else finalSet s k
   | .npint k => finalSet s k
+  | .floatObs r tvr cum =>
+    -- the same statements as `.float`, on the values the float evaluation produced
+    if 0 < r ∧ r ≤ tvr then
+      finalSet s (((cum.filter (fun c => decide (c < r))).length : Int) + 1)
+    else .error .value
+  | .floatObsClamped r tvr cum =>
+    if 0 < r ∧ r ≤ tvr then
+      finalSet s (min (((cum.filter (fun c => decide (c < r))).length : Int) + 1) (s.rows : Int))
+    else .error .value
 
 /-- `trim_components(n_components)` -/
 def trim (s : St) (v : Option Val) : Except Err St :=
@@ -121,6 +139,36 @@ def trim (s : St) (v : Option Val) : Except Err St :=
             trimmed := s1.trimmed ++ s1.eig.drop s1.nActive
             nActive := s1.nActive }
     else .ok s1
+
+/-- rows of `Q` in `orthonormalize_against_inplace`: `np.linalg.qr` (reduced) of the
+`d × (k1 + n_components)` matrix `hstack(other._components.T, self._components.T)`, transposed -/
+def orthoQRows (d k1 rows : Nat) : Nat := min d (k1 + rows)
+
+/-- `n_available_components = Q.shape[0] - linear_model.n_components` -/
+def orthoAvail (d k1 rows : Nat) : Nat := orthoQRows d k1 rows - k1
+
+/-- the active count `orthonormalize_against_inplace` saves before trimming -/
+def orthoSavedActive (s : St) (nAvail : Nat) : Nat := if s.nActive < nAvail then s.nActive else nAvail
+
+/-- bookkeeping part of `PCAVectorModel.orthonormalize_against_inplace(other)` where the model has
+`d` features and `other` has `k1` components: `other.components = Q[:k1]` raises (shape mismatch)
+when `Q` has fewer than `k1` rows; some of this model's components are lost when
+`d < k1 + n_components`: it is trimmed to what is left and the saved active count restored. -/
+def orthoAgainst (s : St) (d k1 : Nat) : Except Err St :=
+  if orthoQRows d k1 s.rows < k1 then .error .value
+  else if orthoAvail d k1 s.rows < s.rows then
+    match s.trim (some (.int (orthoAvail d k1 s.rows))) with
+    | .error e => .error e
+    | .ok s1 =>
+      if orthoSavedActive s (orthoAvail d k1 s.rows) < orthoAvail d k1 s.rows then
+        s1.setActive (.int (orthoSavedActive s (orthoAvail d k1 s.rows)))
+      else .ok s1
+  else .ok s
+
+/-- `inverse_noise_variance()`; `np.allclose(noise_variance, 0)` is `|noise| ≤ 1e-8` -/
+def inverseNoiseVariance (s : St) : Except Err Rat :=
+  if (if s.noiseVariance < 0 then -s.noiseVariance else s.noiseVariance) ≤ 1 / 100000000 then .error .value
+  else .ok (s.noiseVariance)⁻¹
 
 end St
 
@@ -138,11 +186,14 @@ def build (rows : Nat) (eig : List Rat) (maxN : Option Val) : Except Err St :=
 inductive Op
   | set (v : Val)
   | trim (v : Option Val)
+  /-- `orthonormalize_against_inplace(other)`: `d = n_features`, `k1 = other.n_components` -/
+  | ortho (d k1 : Nat)
 deriving Repr, DecidableEq
 
 def St.apply (s : St) : Op → Except Err St
   | .set v => s.setActive v
   | .trim v => s.trim v
+  | .ortho d k1 => s.orthoAgainst d k1
 
 /-- an operation that raises leaves the object as it was -/
 def St.step (s : St) (o : Op) : St :=
